@@ -53,7 +53,8 @@ RULE = ("one evaluation = one seeded run (per-thread request programs + "
         "distinct = distinct SHA-1 of the full event history")
 EXPECTED_PROBES = ["overlapping_requests_same_key", "acquire_blocked",
                    "weakref_died_between_requests",
-                   "strong_cache_evicted_live_key", "fallback_second_tzpath",
+                   "served_from_strong_cache_unreferenced",
+                   "strong_cache_full", "fallback_second_tzpath",
                    "archive_served", "local_zone_after_set_tz"]
 
 CLASSES = {
@@ -340,6 +341,8 @@ class Sim(object):
             # this source tree): that branch of the chain yields nothing
             self.world.bundle = None
         self.inflight = {}          # task -> request being executed
+        self.last_by_key = {}
+        self.tz_changes = 0
 
     def _set_knob(self, cls, attr, value):
         if hasattr(cls, attr):
@@ -536,6 +539,7 @@ class Actor(object):
         if k == "set_tz":
             sim.world.set_tz(op[1])
             sim.tzenv = op[1]
+            sim.tz_changes += 1
             sim.tick()
             ctx.event(self.name, "set_tz", op[1])
             ctx.probe("set_tz")
@@ -641,6 +645,26 @@ class Actor(object):
                     ctx.violation("C18.wrong_zone",
                                   dict(task=self.name, name=op[2],
                                        expected=list(desc), got=repr(obj)))
+            # reach probes
+            last = sim.last_by_key.get(key)
+            if last is not None and o is not None:
+                if last[1]() is None:
+                    ctx.probe("weakref_died_between_requests")
+                elif last[0] == o and not any(
+                        r["obj"] is obj for r in sim.held.values()):
+                    ctx.probe("served_from_strong_cache_unreferenced")
+            if o is not None:
+                try:
+                    sim.last_by_key[key] = (o, weakref.ref(obj))
+                except TypeError:
+                    pass
+            if prov == "arch":
+                ctx.probe("archive_served")
+            if prov == "file" and ZW.ZI2 in repr(obj):
+                ctx.probe("fallback_second_tzpath")
+            if api == "gettz" and isinstance(obj, sim.tz.tzlocal) and \
+                    sim.tz_changes:
+                ctx.probe("local_zone_after_set_tz")
             rec = dict(key=key, obj=obj, ord=o, ret=req["ret"],
                        inv=req["inv"], e0=req["e0"], e1=req["e1"],
                        local=local, op=op, prov=prov)
